@@ -9,7 +9,7 @@ open ChibiVerif.C01 ChibiVerif.X86 ChibiVerif.X86J ChibiVerif.Asm ChibiVerif.Spe
 
 /-- the function of the non-vacuity examples, over `signed char v0; unsigned v1;`:
     `while (v0) { v1 += v0; if (v1 == 2U) { v0++; continue; } v0++; }  do v1 = v1 * 3U; while (0);  for (v0 = 0; v1 < 10U; v1++) if (v1 == 5U) break;
-     switch (v1) { case 4: v0 = 1; default: ++v1; case 5: v1 += 10; break; case -4294967290: v1 = 0; }
+     switch (v1) { case 4: v0 = 1; default: ++v1; case 5 ... 9: v1 += 10; break; case -4294967286: v1 = 0; }
      return v1 || v0 ? 7L : v1;` -/
 def exBody : FStmt :=
   .seq (.for_ none (.var 0) none
@@ -20,11 +20,11 @@ def exBody : FStmt :=
       (.seq (.for_ (some (.assign 0 (.lit .i32 0))) (.bin .lt (.var 1) (.lit .u32 10)) (some (.postinc 1))
               (.ifte (.bin .eq (.var 1) (.lit .u32 5)) .brk .skip))
         (.seq (.switch_ (.var 1)
-                (.seq (.case_ 4 (.expr (.assign 0 (.lit .i32 1))))
+                (.seq (.case_ 4 4 (.expr (.assign 0 (.lit .i32 1))))
                   (.seq (.default_ (.expr (.preinc 1)))
-                    (.seq (.case_ 5 (.expr (.opassign .add 1 (.lit .i32 10))))
+                    (.seq (.case_ 5 9 (.expr (.opassign .add 1 (.lit .i32 10))))
                       (.seq .brk
-                        (.seq (.case_ (-4294967290) (.expr (.assign 1 (.lit .i32 0)))) .skip))))))
+                        (.seq (.case_ (-4294967286) (-4294967286) (.expr (.assign 1 (.lit .i32 0)))) .skip))))))
           (.seq (.ret (.cond (.lor (.var 1) (.var 0)) (.lit .i64 7) (.var 1))) .skip))))
 
 /-- the frame of C01's examples (`%rsp` = 0x1000, `%rbp` = 0x2000, `v0` at -1(%rbp), `v1` at -8(%rbp)) with six hidden temporaries
